@@ -178,6 +178,36 @@ class Session:
         self.los.clear()
         self.syn.clear()
 
+    def rebuild_species(self, S):
+        """give the species tree a new topology built from the SAME node objects, handed out in the opposite order (so
+        that every node object sits at another place of the tour than before, former leaves become ancestors and the
+        other way round), with a fresh LowestCommonAncestor and a fresh input object over the same dicts: anything
+        remembered about a species node object by an earlier structure is now stale"""
+        root = self.st
+        old = list(root.traverse("preorder"))
+        for n in old:
+            for c in list(n.children):
+                c.detach()
+        pool = [n for n in old if n is not root][::-1]
+        self.S = S
+        name = lambda v: ("" if (self.unnamed and S.children[v]) else f"s{v}")   # noqa: E731
+        root.name = name(S.root)
+        self.snode = {S.root: root}
+        for v in S.order_pre():
+            if S.parent[v] is not None:
+                node = pool.pop(0) if pool else type(root)()
+                node.name = name(v)
+                self.snode[S.parent[v]].add_child(child=node)
+                self.snode[v] = node
+        for v, node in self.snode.items():
+            node.dist = 0.5 + (v % 3)
+        self.lca = LowestCommonAncestor(self.st)
+        self.los.clear()
+        if self.labelled:
+            self.inp = SuperReconciliationInput(self.ot, self.lca, self.los, self.costs, self.syn)
+        else:
+            self.inp = ReconciliationInput(self.ot, self.lca, self.los, self.costs)
+
     def set(self, leafmap, costs, leafsyn=None, rootsyn=None):
         """update the shared input in place; -> (input, onode, snode)"""
         for v, sp in leafmap.items():
